@@ -9,7 +9,8 @@ M  Stencil.tla: the state is a small raster, the transition changes one cell; TL
 R  every 3x3 window of the same space tiled six to a 6x9 raster (quick: all 3^9 over {0,1,NaN}; thorough: all
    4^9) and windows as 3x3 rasters of their own (quick: seeded sample; thorough: all 3^9), with the four cell
    sizes given through `res` (every accepted / ignored form) and through coordinates, through the real
-   functions (NumPy backend); Stencil_Judge.tla decides every cell of every output.
+   functions (NumPy backend, plus a Dask-backed sample under three chunkings with non-default sun positions);
+   Stencil_Judge.tla decides every cell of every output against the definition.
 T  seeded larger rasters (floats, NaNs, dtypes, random sun positions): NaN ring / NaN exactly / ranges;
    single-cell perturbation (bit-exact diff set inside the 3x3 neighbourhood); + constant on integer
    elevations (bit-identical); np.rot90 laws; summarize_terrain == the three separate calls.
@@ -174,13 +175,13 @@ def distinct_finite(rows):
     return len({v for row in rows for v in row if v != "nan"})
 
 
-def handle(ctx, cases, tag, parallel=8):
+def handle(ctx, cases, tag, parallel=8, prefix="stencil"):
     """judge one homogeneous batch and book the verdicts"""
     good = [c for c in cases if "error" not in c]
     for c in cases:
         if "error" in c:
             ctx.evaluations += 1
-            ctx.violation("stencil:%s:call-raised" % c["kind"], "call_raised", {"job": c["job"]}, c["error"])
+            ctx.violation("%s:%s:call-raised" % (prefix, c["kind"]), "call_raised", {"job": c["job"]}, c["error"])
     if not good:
         return
     v = ctx.judge("Stencil_Judge", [strip(c) for c in good], name=tag, parallel=parallel)
@@ -190,8 +191,8 @@ def handle(ctx, cases, tag, parallel=8):
         j = c["job"]
         if distinct_finite(j["vals"]) >= 2:
             ctx.nontrivial((c["kind"], json.dumps(j, sort_keys=True)))
-        if cl != "ok" and capped(ctx, "stencil:%s" % cl):
-            ctx.violation("stencil:%s" % cl, cl, {"job": j, "observed": c.get("raw"), "case": strip(c) if c["kind"] != "F" else None},
+        if cl != "ok" and capped(ctx, "%s:%s" % (prefix, cl)):
+            ctx.violation("%s:%s" % (prefix, cl), cl, {"job": j, "observed": c.get("raw"), "case": strip(c) if c["kind"] != "F" else None},
                           "%s %dx%d dtype=%s meta=%s" % (tag, j["H"], j["W"], j.get("dtype"), (j.get("meta") or {}).get("rk")))
         ex = ctx.judge_extra.get(i)
         if ex and ex.startswith("drift"):
@@ -208,7 +209,7 @@ def observe(ctx, groups, nproc=16):
     for tag, js, par in groups:
         part = cases[k:k + len(js)]
         k += len(js)
-        handle(ctx, part, tag, parallel=par)
+        handle(ctx, part, tag, parallel=par, prefix="dask" if tag.startswith("dask") else "stencil")
         if tag == "windows_3x3":
             for c in part[:40000:9973]:
                 ctx.sample({"kind": "window", "vals": c["job"]["vals"], "meta": c["job"]["meta"],
@@ -222,7 +223,7 @@ def replay(ctx, rec):
     job = rec["case"]["job"]
     cases = core.run_jobs("stencil_worker", [job], nproc=1)
     print("replaying %s: observed %s" % (rec.get("key"), json.dumps(cases[0].get("raw"))[:600]))
-    handle(ctx, cases, "replay", parallel=1)
+    handle(ctx, cases, "replay", parallel=1, prefix="dask" if job.get("chunks") else "stencil")
 
 
 def setup(ctx):
@@ -235,7 +236,8 @@ def setup(ctx):
         "aspect and hillshade do not use the cell size (ArcGIS aspect / GeoExamples hillshade as implemented); the "
         "documented formula of curvature uses the mean of the two cell sizes",
         "aspect 360 is identified with 0; curvature -0.0 counts as 0",
-        "NumPy backend only (Dask equality is C01); elevations finite or NaN, cell sizes positive",
+        "NumPy backend, plus a Dask-backed sample (chunked, synchronous scheduler) judged against the same "
+        "definition; CuPy not available; elevations finite or NaN, cell sizes positive",
         "+constant / rot90 laws are asserted bit-exactly resp. within 1e-3 degrees on integer-valued elevations "
         "whose partial sums are exact in float32",
     ]
@@ -331,6 +333,28 @@ def run(ctx):
         jobs.append(f_job(rows, t, az=rng.choice([225, 10, 100, 180, 271, 359]), alt=rng.choice([25, 5, 60, 89])))
     groups.append(("tiled_rasters", jobs, ctx.pick(4, 8)))
 
+    # ------------------------------------------------------------------ R: a Dask-backed sample of the same rasters
+    # (the property is about every backend): 2-3 chunkings each, always a NON-default sun position, cell sizes via
+    # `res` and via coordinates; judged by the same clauses against the definition (not against NumPy)
+    jobs = []
+    suns = [(315, 45), (90, 60), (10, 5), (180, 89), (271, 0), (0, 70), (45, 33)]
+    for t in range(ctx.pick(65, 330)):
+        if t % 3 == 0:
+            rows = tile([window(rng.randrange(4 ** 9), 4) for _ in range(6)], 2, 3)
+        elif t % 3 == 1:
+            rows = tile([window(rng.randrange(4 ** 9), 4) for _ in range(2)], 1, 2)
+        else:
+            H, W = rng.choice([(4, 7), (5, 5), (7, 4), (3, 8)])
+            rows = sprinkle_nan(rng, rand_raster(rng, H, W, "smallint"), rng.choice([0, 0.05, 0.15]))
+        H, W = len(rows), len(rows[0])
+        az, alt = suns[t % len(suns)]
+        uneven = [[[2, H - 2], [1, 3, W - 4] if W > 4 else [1, W - 1]], [[H - 1, 1], [W - 2, 2]]][t % 2]
+        for ck in ([[H], [W]], [[1] * H, [1] * W], uneven):        # single block, 1-cell chunks, uneven
+            j = f_job(rows, t, az=az, alt=alt)
+            j["chunks"] = ck
+            jobs.append(j)
+    groups.append(("dask_rasters", jobs, ctx.pick(2, 4)))
+
     # ------------------------------------------------------------------ T: seeded metamorphic cases on the real code
     def base(kind, mode, nan=True, square=False, dtypes=("float64", "float32")):
         H, W = rng.choice([(4, 5), (5, 4), (6, 7), (8, 6), (9, 9), (3, 7)])
@@ -397,5 +421,5 @@ META = {
                   "the window space, sampled beyond it.",
     "level_note": "Trusted: TLC; the float bridge in harness/workers/stencil_worker.py (inverse closed forms with 1e-3 "
                   "degree / 1e-5 tolerances; arctan, atan2, sin, cos themselves are not decided by the specification); "
-                  "the encoding of rasters and metadata; NumPy backend only.",
+                  "the encoding of rasters and metadata; NumPy backend exhaustively, Dask backend on a chunked sample.",
 }
